@@ -57,7 +57,7 @@ Lemma step_places s l s' k' x' : length (p_places s) = NPLACES -> p_panicked s' 
                   /\ x' = SD (s_id x) t (s_next x) (s_or x) (S (s_pass x))).
 Proof.
   intros GL NP HS HI. unfold step in HS. destruct (p_panicked s); [discriminate|].
-  destruct l as [|k id o|id].
+  destruct l as [|k id o|id|].
   - destruct (p_src s) as [|[[id u] h] r] eqn:ES; [discriminate|].
     destruct (_ && _); [|discriminate]. inversion HS; subst; clear HS. unfold place in HI; simpl in HI.
     destruct (Nat.eq_dec k' 0) as [->|Hk].
@@ -92,6 +92,8 @@ Proof.
         -- rewrite nth_upd_same in HI by (rewrite GL; unfold NPLACES; lia). left. apply Hrest. exact HI.
         -- rewrite nth_upd_other in HI by auto. left. exact HI.
     + inversion HS; subst s'. simpl in NP. discriminate.
+  - destruct (p_src s) as [|[[id u] h] r] eqn:ES; [discriminate|].
+    inversion HS; subst s'; clear HS. left. exact HI.
 Qed.
 
 Lemma hinv_stage c k o x y : (k < 9)%nat -> hinv c k x -> stage c k o x = Ok y -> hinv c (S k) y.
@@ -175,7 +177,7 @@ Proof.
   pose proof (step_ginv seed0_inv_closed pass_preserves_closed _ _ _ G HS) as G'.
   pose proof (g_len _ G) as GL. pose proof (g_nopanic _ G) as GP. pose proof (g_nopanic _ G') as GP'.
   unfold step in HS. rewrite GP in HS. unfold mu.
-  destruct l as [|k id o|id].
+  destruct l as [|k id o|id|].
   - destruct (p_src s) as [|[[id u] h] r] eqn:ES; [discriminate|].
     destruct (_ && _); [|discriminate]. inversion HS; subst s'; clear HS. cbn [p_src p_places].
     pose proof (msum_upd b 0 (fun q => q ++ [SD id (fst (seed0 u h)) (snd (seed0 u h)) null_oracle 0]) (p_places s) 0 ltac:(rewrite GL; unfold NPLACES; lia)) as HU.
@@ -214,6 +216,8 @@ Proof.
       simpl Nat.add in HU2. rewrite wsum_app in HU2. simpl wsum in HU2.
       unfold w1 in *. simpl s_pass in HU2. lia.
     + inversion HS; subst s'; clear HS. cbn [p_src p_places]. unfold w1 in *. lia.
+  - destruct (p_src s) as [|[[id u] h] r] eqn:ES; [discriminate|].
+    inversion HS; subst s'; clear HS. cbn [p_src p_places]. simpl length. lia.
 Qed.
 
 (* ---- C01: every execution is finite, with an explicit bound ---- *)
